@@ -49,9 +49,9 @@ def histories(ctx, q):
     gens = []
     c = dict(hist, MaxDepth=4 if q else 5)
     h, r = ctx.gen("replay", "GenSession", c)
-    gens.append(both(take(h, 600 if q else 20000, ctx.seed), c, "replay"))
+    gens.append(both(take(h, 600 if q else 12000, ctx.seed), c, "replay"))
     c = dict(wide, MaxDepth=10)
-    n = 200 if q else 5000
+    n = 200 if q else 3000
     h, r = ctx.gen("random", "GenSession", c, simulate="num=%d" % max(20, n // 50), workers=1)
     gens.append(both(take(h, n, ctx.seed), c, "random"))
 
